@@ -117,11 +117,19 @@ func funcToFloat(ctx *Context, this *VMValue, params []*VMValue) *VMValue {
 }
 
 func funcToStr(ctx *Context, this *VMValue, params []*VMValue) *VMValue {
-	return NewStrVal(params[0].ToString())
+	s, ok := ctx.stringifyCharged(params[0], false)
+	if !ok {
+		return nil
+	}
+	return NewStrVal(s)
 }
 
 func funcRepr(ctx *Context, this *VMValue, params []*VMValue) *VMValue {
-	return NewStrVal(params[0].ToRepr())
+	s, ok := ctx.stringifyCharged(params[0], true)
+	if !ok {
+		return nil
+	}
+	return NewStrVal(s)
 }
 
 func funcTypeId(ctx *Context, this *VMValue, params []*VMValue) *VMValue {
